@@ -10,7 +10,7 @@ use proptest::prelude::*;
 use rayon::prelude::*;
 use serde_json::{json, Value};
 
-pub const RULE: &str = "positions: rule-interaction-biased set-ups (castle/ep/promotion/pin/check/cage themes, uniform and pawn-heavy placements) and reachable positions (random legal walks from 14 seeds and from set-ups); each is given to a brand-new MoveGenerator (the colour is passed explicitly; in half of the cases board.turn() is the other colour, as in count_positions) and the result compared as a multiset of (kind, from, to, promotion, captured) with the mailbox reference. Walks additionally evolve one engine board by apply() and compare at every node; tree walks enumerate all nodes to a fixed depth. Non-trivial = position shows a legal or illegal-pseudo-legal en passant, available or attack-prevented castling, promotion, pin, check, double check, mate or stalemate; distinct = position fingerprint (placement, side, rights, ep).";
+pub const RULE: &str = "positions: rule-interaction-biased set-ups (castle/ep/promotion/pin/check/cage themes, uniform and pawn-heavy placements, many-queen swarms and crowds with move lists of 130..220 moves) and reachable positions (random legal walks from 14 seeds and from set-ups); each is given to a brand-new MoveGenerator (the colour is passed explicitly; in half of the cases board.turn() is the other colour, as in count_positions) and the result compared as a multiset of (kind, from, to, promotion, captured) with the mailbox reference. Walks additionally evolve one engine board by apply() and compare at every node; tree walks enumerate all nodes to a fixed depth. Non-trivial = position shows a legal or illegal-pseudo-legal en passant, available or attack-prevented castling, promotion, pin, check, double check, mate or stalemate; distinct = position fingerprint (placement, side, rights, ep).";
 
 pub fn test_position(pos: &Pos, st: &mut Stats) -> TestResult {
     // legal moves do not depend on the clocks: one position in eight carries a half-move clock
@@ -39,6 +39,15 @@ pub fn test_position(pos: &Pos, st: &mut Stats) -> TestResult {
     let labels = gen::labels(pos);
     for l in &labels {
         st.label(l);
+    }
+    if reference.len() > 128 {
+        st.label("more-than-128-legal-moves");
+    }
+    if reference.len() > 100 || pos.count(P::Queen, pos.side) >= 6 {
+        let pseudo = pos.pseudo_moves(pos.side).len();
+        if pseudo > 128 && pseudo > reference.len() {
+            st.label("more-than-128-pseudo-legal-moves-some-illegal");
+        }
     }
     if gen::is_rule_interaction(&labels) {
         st.nontrivial(pos.fingerprint(), || pos_sample(pos, &labels));
